@@ -53,9 +53,9 @@ var registry = map[string]func(t *testing.T, c *Collector){
 		scs := c16Scenarios(c.job.Tier)
 		c.res.Bound = fmt.Sprintf("%d scenarios, preemption bound %d", len(scs), scs[0].Bound)
 		runConcScenarios(t, c, scs)
-		iters := 30
+		iters := 15
 		if c.job.Tier != "quick" {
-			iters = 300
+			iters = 100
 		}
 		freeRunRace(c, scs, iters)
 		c.res.Engine = "R (schedule enumerator in a -race build with a detector-invisible hand-off, real file system) + free-running -race pass of the same scenario bodies"
